@@ -2336,7 +2336,10 @@ def n12_rotate_loops(fnode, base_hashes):
     stands directly in front of the loop; no break / continue in it, no else
     branch; the pinned function has no such loop)  ->
     `while True: B; if not T: break`  -- the same statements in the same
-    order on every path (the "read ahead" form of a loop-and-a-half)."""
+    order on every path (the "read ahead" form of a loop-and-a-half).
+    Likewise the sentinel form `v = None; while v is None or T: v = E; ..`
+    when E cannot be None by its form (an operator expression, a constructor
+    call, a method of this class all of whose returns are such)."""
     import hashlib
     changed = False
 
@@ -2355,6 +2358,83 @@ def n12_rotate_loops(fnode, base_hashes):
                 continue
             stack.extend(ast.iter_child_nodes(n))
         return False
+    def root_of(n):
+        while getattr(n, '_parent', None) is not None:
+            n = n._parent
+        return n
+
+    def plain_value(e, depth=0):
+        """an expression that cannot evaluate to None, read off its form"""
+        if isinstance(e, ast.Constant):
+            return e.value is not None
+        if isinstance(e, (ast.BinOp, ast.JoinedStr, ast.Tuple, ast.List,
+                          ast.Dict, ast.Set, ast.Compare, ast.ListComp)):
+            return True
+        if isinstance(e, ast.Call):
+            if isinstance(e.func, ast.Name) and e.func.id in (
+                    'bytes', 'str', 'int', 'len', 'bytearray', 'list',
+                    'tuple', 'bool'):
+                return True
+            if isinstance(e.func, ast.Attribute) and isinstance(
+                    e.func.value, ast.Name) and \
+                    e.func.value.id in ('self', 'cls') and depth < 2:
+                defs = [d for d in ast.walk(root_of(fnode))
+                        if isinstance(d, ast.FunctionDef) and
+                        d.name == e.func.attr]
+                if len(defs) != 1:
+                    return False
+                d = defs[0]
+                rets = [r for r in ast.walk(d) if isinstance(r, ast.Return)]
+                return bool(rets) and isinstance(d.body[-1], ast.Return) \
+                    and all(r.value is not None and
+                            plain_value(r.value, depth + 1) for r in rets) \
+                    and not any(isinstance(x, (ast.Yield, ast.YieldFrom))
+                                for x in ast.walk(d))
+        return False
+
+    def sentinel(lst, i):
+        """`v = None; while v is None or T: v = E; ..`  with E never None:
+        the first pass is always made and afterwards the test is T"""
+        w = lst[i]
+        if i == 0 or not (isinstance(w, ast.While) and not w.orelse and
+                          w.body and h(w) not in base_hashes and
+                          not own_jumps(w.body)):
+            return None
+        init = lst[i - 1]
+        if not (isinstance(init, ast.Assign) and len(init.targets) == 1 and
+                isinstance(init.targets[0], ast.Name) and
+                isinstance(init.value, ast.Constant) and
+                init.value.value is None):
+            return None
+        v = init.targets[0].id
+        t = w.test
+        if not (isinstance(t, ast.BoolOp) and isinstance(t.op, ast.Or) and
+                len(t.values) >= 2):
+            return None
+        g = t.values[0]
+        if not (isinstance(g, ast.Compare) and len(g.ops) == 1 and
+                isinstance(g.ops[0], ast.Is) and
+                isinstance(g.left, ast.Name) and g.left.id == v and
+                isinstance(g.comparators[0], ast.Constant) and
+                g.comparators[0].value is None):
+            return None
+        first = w.body[0]
+        if not (isinstance(first, ast.Assign) and len(first.targets) == 1 and
+                isinstance(first.targets[0], ast.Name) and
+                first.targets[0].id == v and plain_value(first.value) and
+                not any(isinstance(x, ast.Name) and x.id == v
+                        for x in ast.walk(first.value))):
+            return None
+        # no other store to v in the body
+        for st in w.body[1:]:
+            for x in ast.walk(st):
+                if isinstance(x, ast.Name) and x.id == v and \
+                        isinstance(x.ctx, ast.Store):
+                    return None
+        rest = t.values[1] if len(t.values) == 2 else ast.BoolOp(
+            op=ast.Or(), values=list(t.values[1:]))
+        return rest
+
     for owner in ast.walk(fnode):
         for fld in ('body', 'orelse', 'finalbody'):
             lst = getattr(owner, fld, None)
@@ -2363,6 +2443,18 @@ def n12_rotate_loops(fnode, base_hashes):
             i = 0
             while i < len(lst):
                 w = lst[i]
+                rest = sentinel(lst, i)
+                if rest is not None:
+                    brk = ast.If(test=ast.UnaryOp(op=ast.Not(), operand=rest),
+                                 body=[ast.Break()], orelse=[])
+                    new = ast.While(test=ast.Constant(value=True),
+                                    body=list(w.body) + [brk], orelse=[])
+                    ast.copy_location(new, w)
+                    ast.copy_location(brk, w)
+                    lst[i - 1:i + 1] = [new]
+                    ast.fix_missing_locations(new)
+                    changed = True
+                    continue
                 k = len(w.body) if isinstance(w, ast.While) else 0
                 if not (isinstance(w, ast.While) and not w.orelse and
                         0 < k <= i and h(w) not in base_hashes and
